@@ -87,7 +87,7 @@ def run_hist_one(exe, run, d, ops, verbose=False):
     env = dict(ENV)
     if verbose:
         env["VERIF_HIST_VERBOSE"] = "1"
-    rc, out, err = core.run_impl(exe, [cf], timeout=120, env=env)
+    rc, out, err = core.run_impl(exe, [cf], timeout=20, env=env)
     lines = [l for l in out.split("\n") if l and not l.startswith("#")]
     if verbose:
         return rc, out, err
@@ -96,7 +96,7 @@ def run_hist_one(exe, run, d, ops, verbose=False):
 
 def check_hist(run, exe):
     quick = run.tier == "quick"
-    ncases = 110 if quick else 4000
+    ncases = 800 if quick else 12000
     nops = 28 if quick else 45
     work = os.path.join(run.work, "dumps")
     os.makedirs(work, exist_ok=True)
@@ -120,7 +120,7 @@ def check_hist(run, exe):
         return
     shard = 40
     done = 0
-    while done < ncases and len(run.violations) < 3:
+    while done < ncases and len(run.violations) < int(os.environ.get("VERIF_MAXV", "3")):
         batch = []
         for j in range(min(shard, ncases - done)):
             fmt = fmts[(done + j) % len(fmts)] if run.rng.random() < 0.8 else run.rng.choice(fmts)
@@ -129,7 +129,7 @@ def check_hist(run, exe):
             ops = histgen.gen_history(run.rng, d, run.rng.randint(4, nops))
             batch.append((d, fmt, dump_seed, ops))
         lines = [case_line(d, ops) for d, _, _, ops in batch]
-        out, crashes = core.run_impl_lines(exe, run.work, lines, env=ENV)
+        out, crashes = core.run_impl_lines(exe, run.work, lines, env=ENV, timeout=90)
         for k, ((d, fmt, dump_seed, ops), line) in enumerate(zip(batch, out)):
             i = first_diff(ops, line)
             run.count("hist-fmt-" + fmt)
